@@ -477,6 +477,47 @@ void run_laws(vj::W& w, Document& doc, unsigned seed, int max_exprs, const std::
     }
     for (auto& e : work)
         laws_for(c, e, syms);
+    // ---- the two-frame deep clone: "replaces each symbol with a symbol from the given frame(s), with the same name".
+    // Called with the frames a label was parsed in (template frame, select frame of its edge) and on a label all of whose
+    // symbols are what those frames resolve their names to (first frame first), it is a plain deep clone of the label.
+    for (auto& t : doc.get_templates())
+        for (auto& ed : t.edges)
+            for (const expression_t* lab : {&ed.guard, &ed.sync, &ed.assign, &ed.prob}) {
+                if (lab->empty())
+                    continue;
+                std::vector<expression_t> ns;
+                all_nodes(*lab, ns);
+                bool pre = ns.size() < 400;
+                for (auto& n : ns) {
+                    symbol_t s = n.get_symbol(), uid;
+                    if (s == symbol_t())
+                        continue;
+                    bool res = t.frame.resolve(s.get_name(), uid);
+                    if (!res && ed.select != frame_t())
+                        res = ed.select.resolve(s.get_name(), uid);
+                    if (!res || uid != s) {
+                        pre = false;
+                        break;
+                    }
+                }
+                if (!pre) {
+                    c.count("clone-frames-skipped");
+                    continue;
+                }
+                c.count("clone-frames");
+                std::string de = c.D(*lab);
+                expression_t r = lab->clone_deeper(t.frame, ed.select);
+                if (c.D(r) != de || !r.equal(*lab) || !lab->equal(r))
+                    c.fail("clone-frames-dump-differs", de + " got=" + c.D(r));
+                std::vector<expression_t> rn;
+                all_nodes(r, rn);
+                std::set<expression_t> sa(ns.begin(), ns.end());
+                for (auto& n : rn)
+                    if (sa.count(n)) {
+                        c.fail("clone-frames-shares-node", de);
+                        break;
+                    }
+            }
     // ---- symmetry / transitivity / equal => same text, over a pool with deliberate duplicates
     {
         std::vector<expression_t> p2;
